@@ -15,6 +15,12 @@ DOC_FLAGS = {"Front": 11, "RightmostFront": 11, "Back": 14, "Anywhere": 15, "Non
 RATES = [0.0, 0.1, 0.15, 0.2, 0.25, 0.3, 0.34, 0.4, 0.5, 0.7, 0.9]
 
 
+def stable_hash(x):
+    import zlib
+
+    return zlib.crc32(repr(x).encode())
+
+
 def enc(s):
     return " ".join(str(ord(c)) for c in s)
 
